@@ -74,7 +74,7 @@ def _content(path, width, kind, number, param_value):
             v = number % (2 ** (8 * size - 1))
         want = v
         if "Enum" in names:
-            want = None
+            want = kind[names.index("Enum")][1][0][0]  # the name the pinned table gives to the written code
         elif "Flag" in names:
             want = bool(v)
         elif "DatetimeYdus" in names:
@@ -88,7 +88,7 @@ def _content(path, width, kind, number, param_value):
         elif name in SMALL:
             v = SMALL[name]
         elif "Enum" in names:
-            return str(kind[names.index("Enum")][1][0][1]).rjust(width).encode(), None
+            return str(kind[names.index("Enum")][1][0][1]).rjust(width).encode(), kind[names.index("Enum")][1][0][0]
         else:
             v = number % (10 ** min(width, 6))
         return str(v).rjust(width).encode(), v
@@ -104,7 +104,7 @@ def _content(path, width, kind, number, param_value):
         return text.encode(), want
     if last == "PaddedString":
         if "Enum" in names:
-            return str(kind[names.index("Enum")][1][0][1]).ljust(width).encode(), None
+            return str(kind[names.index("Enum")][1][0][1]).ljust(width).encode(), kind[names.index("Enum")][1][0][0]
         if name in TEXTS:
             return TEXTS[name].ljust(width)[:width].encode(), TEXTS[name][:width].strip()
         # fill the whole field (no padding): a width moved between two neighbouring text fields must show
